@@ -74,6 +74,9 @@ static void h13_body(int t) {
     logf_(t, "[%d %d/%d %d %d %d %d %d %d]", a, b, ir, c, d, e, f, g, h);
 }
 
+/* H14: look-ups of labels written with capitals (a case-folding path may use a scratch buffer), twice per thread */
+static void h14_body(int t) { static const char *const d[3] = { "AAA", "Abarth", "aC" }; for (int k = 0; k < 2; k++) { int r = is_tld(d[t], d[t] + strlen(d[t])); logf_(t, "[tld(%s)=%d]", d[t], r); } }
+
 static harness_t H[] = {
     { "H1-two-6531-idn-validations", 2, h1_prep, h1_body, free_objs },
     { "H2-6531-vs-822", 2, h2_prep, h2_body, free_objs },
@@ -88,6 +91,7 @@ static harness_t H[] = {
     { "H11-same-tld-lookup-twice-per-thread", 2, h3_prep, h11_body, NULL },
     { "H12-same-address-twice-per-thread-different-classes", 2, h12_prep, h12_body, free_objs },
     { "H13-part-validators-with-mid-buffer-end-pointers", 2, h13_prep, h13_body, NULL },
+    { "H14-tld-lookups-with-capitals", 2, h3_prep, h14_body, NULL },
     { "T1-three-threads-reserved-names", 3, h3_prep, h3_body, NULL },
     { "T2-three-threads-is_tld", 3, h3_prep, h4_body, NULL },
     { "T3-three-threads-6531-822-5322", 3, h2_prep, h2_body, free_objs },
